@@ -379,7 +379,7 @@ pub fn run(tier: &str) -> i32 {
     // "threads" share one OS thread, so state kept in a std thread_local! looks shared to every task.
     {
         use std::sync::mpsc;
-        type Job = (usize, Actor);
+        type Job = (usize, ForceSend<Actor>);
         let gs = groups();
         let mut total_exec = 0u64;
         for gname in ["identical", "near-flops", "other-flop-same-ranges"] {
@@ -404,17 +404,18 @@ pub fn run(tier: &str) -> i32 {
                     n += 1;
                     // two fresh worker threads per execution
                     let mut txs = vec![];
-                    let (back_tx, back_rx) = mpsc::channel::<(usize, Option<Actor>, String)>();
+                    let (back_tx, back_rx) = mpsc::channel::<(usize, Option<ForceSend<Actor>>, String)>();
                     let mut handles = vec![];
                     for _w in 0..2 {
                         let (tx, rx) = mpsc::channel::<Job>();
                         let back = back_tx.clone();
                         txs.push(tx);
                         handles.push(std::thread::spawn(move || {
-                            while let Ok((ai, mut actor)) = rx.recv() {
+                            while let Ok((ai, actor)) = rx.recv() {
+                                let mut actor = actor.0;
                                 let r = catch(std::panic::AssertUnwindSafe(|| {
                                     let o = actor.step();
-                                    (actor, o)
+                                    (ForceSend(actor), o)
                                 }));
                                 match r {
                                     Ok((actor, o)) => {
@@ -437,13 +438,13 @@ pub fn run(tier: &str) -> i32 {
                             Some(x) => x,
                             None => break,
                         };
-                        if txs[w].send((a, actor)).is_err() {
+                        if txs[w].send((a, ForceSend(actor))).is_err() {
                             failure = Some(json!({"step": step, "problem": "worker thread died"}));
                             break;
                         }
                         match back_rx.recv() {
                             Ok((ai, actor, o)) => {
-                                actors[ai] = actor;
+                                actors[ai] = actor.map(|x| x.0);
                                 let k = pos[ai];
                                 if solos[ai].get(k) != Some(&o) {
                                     failure = Some(json!({"step": step, "actor": ai, "actor_operation": k, "ran_on_thread": w, "observed": o, "alone": solos[ai].get(k)}));
@@ -524,6 +525,45 @@ pub fn run(tier: &str) -> i32 {
         }
     }
 
+    // (B2) the same thread programs against the INSTRUMENTED copy of the crate, under a preemption-bounded DFS
+    {
+        let info = std::env::var("VERIF_SHADOW_INFO").unwrap_or_default();
+        let sbin = std::env::var("VERIF_SHADOW_BIN").unwrap_or_default();
+        if sbin.is_empty() {
+            rep.set("instrumented_exploration", json!({"ran": false, "generator": info, "note": "nothing to instrument (no std::sync / thread_local! / std::thread use in /repo/src) or the instrumented copy did not compile; either way this is not a verdict - between two API calls there is then no scheduling point a scheduler could own"}));
+        } else {
+            let groups_s = ["two-threads/identical", "two-threads/other-flop-same-ranges", "two-threads/near-flops", "three-threads", "moved-between-threads", "shared-through-arc"];
+            let mut results = vec![];
+            let mut total = 0u64;
+            let deadline = std::time::Instant::now() + std::time::Duration::from_secs(if thorough { 1200 } else { 150 });
+            'outer: for bound in [0usize, 1, 2] {
+                for g in groups_s {
+                    if std::time::Instant::now() > deadline {
+                        results.push(json!({"stopped": "time budget of the instrumented exploration used up", "before": g, "bound": bound}));
+                        break 'outer;
+                    }
+                    // one process per (group, bound): the subject's statics are shuttle objects and must start fresh
+                    let o = std::process::Command::new(&sbin).arg(tier).env("SCHED_SEQUENTIAL", "1").env("SCHED_ONLY", g).env("SCHED_PREEMPTION_BOUND", bound.to_string()).env("RUST_BACKTRACE", "0").output();
+                    let v: Value = match o {
+                        Ok(o) => String::from_utf8_lossy(&o.stdout).lines().rev().find(|l| l.starts_with('{')).and_then(|l| serde_json::from_str::<Value>(l).ok()).and_then(|v| v["groups"].as_array().and_then(|a| a.first().cloned())).unwrap_or(json!({"name": g, "crashed": format!("{:?}", o.status)})),
+                        Err(e) => json!({"name": g, "spawn_failed": e.to_string()}),
+                    };
+                    let n = v["schedules"].as_u64().unwrap_or(0);
+                    total += n;
+                    if v.get("failure").map(|f| !f.is_null()).unwrap_or(false) {
+                        rep.violation(Violation { key: format!("instrumented threads group={} preemption_bound={}", g, bound), sub: "instrumented".into(), case: json!({"group": g, "bound": bound}), expected: json!("every thread observes its solo sequence under every schedule with at most this many preemptions inside calls"), observed: v["failure"].clone() });
+                    }
+                    results.push(json!({"group": g, "preemption_bound": bound, "schedules": n, "complete": v["exhaustive"], "failure": v.get("failure")}));
+                    if rep.violations_total > 0 {
+                        break 'outer; // the first counterexample has the fewest preemptions
+                    }
+                }
+            }
+            rep.machine(total.max(1), total.max(1), total);
+            rep.sub("instrumented", "shuttle thread programs against the instrumented copy of /repo/src (std::sync::{Mutex,RwLock,atomic,..}, thread_local! and std::thread redirected to shuttle): every lock, atomic and thread-local access inside a call is a scheduling point; own preemption-bounded DFS scheduler, bound iterated 0, 1, 2, all schedules within the bound (or the stated cap)", total, total, false, json!({"generator": info, "runs": results}));
+        }
+    }
+
     // (E) free-running sampling pass on OS threads (supporting, not deciding)
     {
         let gs = groups();
@@ -532,10 +572,15 @@ pub fn run(tier: &str) -> i32 {
         let reps = if thorough { 200 } else { 40 };
         let specs: Vec<Spec> = gs.iter().flat_map(|g| g.1.clone()).collect();
         let solos: Vec<Vec<String>> = specs.iter().map(solo_safe).collect();
-        let res = par_map(16, |t| {
+        // all 16 threads leave the barrier together before every round, so that the same and colliding actors
+        // really overlap in time (this is still sampling: the OS decides the interleaving)
+        let k_threads = vlib::par::n_threads().min(16).max(1);
+        let barrier = std::sync::Barrier::new(k_threads);
+        let res = par_map(k_threads, |t| {
             let mut bad = None;
             let mut n = 0u64;
             for r in 0..reps {
+                barrier.wait();
                 for (i, s) in specs.iter().enumerate() {
                     if (i + t + r) % 3 == 0 {
                         n += 1;
@@ -555,7 +600,48 @@ pub fn run(tier: &str) -> i32 {
                 rep.violation(Violation { key: format!("free-running {}", b), sub: "free-running".into(), case: json!({"actor": b}), expected: json!("solo sequence"), observed: json!("differs when 16 OS threads run actors concurrently") });
             }
         }
-        rep.set("free_running_sampling_pass", json!({"label": "SAMPLING - supporting evidence only, not part of the exhaustive claim", "os_threads": 16, "actor_runs": runs, "all_equal_to_solo": ok}));
+        rep.set("free_running_sampling_pass", json!({"label": "SAMPLING - supporting evidence only, not part of the exhaustive claim", "os_threads": k_threads, "actor_runs": runs, "all_equal_to_solo": ok}));
+    }
+    // (E2) heavier concurrent load, still SAMPLING: eight OS threads drain the same multi-combo configuration at the
+    // same time (hundreds of thousands of showdowns each, many hands evaluated by several threads at once); every
+    // thread must see exactly the sequence one thread sees alone
+    {
+        use espada::hand_range::HandRange;
+        let digest = || -> Result<(u64, u64), String> {
+            catch(|| {
+                let ranges: Vec<HandRange> = vec!["QQ+,AKs,AKo:0.5".parse().unwrap(), "JJ-99,AQs,KQs:0.25".parse().unwrap()];
+                let flop = [8u8, 26, 49];
+                let mut h: u64 = 0xcbf29ce484222325;
+                let mut n = 0u64;
+                for sd in espada::evaluator::FlopExhaustiveEvaluator::new(&vlib::cards::board_opt(&flop), &ranges) {
+                    n += 1;
+                    for p in sd.players().iter() {
+                        h = (h ^ (p.hand().power_index() as u64) ^ ((p.is_winner() as u64) << 20)).wrapping_mul(0x100000001b3);
+                    }
+                    h = (h ^ sd.probability().to_bits() as u64).wrapping_mul(0x100000001b3);
+                }
+                (n, h)
+            })
+        };
+        let alone = digest();
+        let rounds = if thorough { 12 } else { 3 };
+        let k = vlib::par::n_threads().min(8).max(1);
+        let barrier = std::sync::Barrier::new(k);
+        let res = par_map(k, |_t| {
+            let mut diverged = 0u64;
+            for _ in 0..rounds {
+                barrier.wait();
+                if digest() != alone {
+                    diverged += 1;
+                }
+            }
+            diverged
+        });
+        let diverged: u64 = res.iter().sum();
+        if diverged > 0 || alone.is_err() {
+            rep.violation(Violation { key: "concurrent drains of [QQ+,AKs,AKo:0.5] vs [JJ-99,AQs,KQs:0.25] on Qs8d2h".into(), sub: "free-running".into(), case: json!({"threads": k, "rounds": rounds}), expected: json!("every thread sees the sequence one thread sees alone"), observed: json!({"divergent_drains": diverged, "alone": format!("{:?}", alone)}) });
+        }
+        rep.set("free_running_heavy_pass", json!({"label": "SAMPLING - supporting evidence only", "os_threads": k, "rounds": rounds, "showdowns_per_drain": alone.as_ref().map(|x| x.0).unwrap_or(0), "divergent_drains": diverged}));
     }
     rep.bound("preemption inside one API call is not explored: nothing there can be intercepted (no sync primitive) and, under the audited premise, nothing there is shared");
     rep.bound("actors: at most four live evaluators / three threads; programs of 3..9 operations");
